@@ -12,7 +12,7 @@ EXPLANATION = (
     "in each SASE entry point check_global_negations dominates the run loops, and the entry points issue the same engine steps."
 )
 DECIDED = ["capture is guarded by the step's type + predicate test on every path", "filter translation is total (never silently drops a filter)",
-           "global negation check precedes run advancement in every entry point"]
+           "global negation check precedes run advancement in every entry point", "an invalidated run is dropped before it can advance (shared with C02)"]
 NOT_DECIDED = ["that predicates evaluate correctly (see C08/C09)", "order of events inside a match", "partition discipline (decided under C04)"]
 
 S = "varpulis_runtime::sase::"
